@@ -216,9 +216,11 @@ PROPS["C11"] = dict(
                                 "Sth.C11_cut_handover_pass_file_released",
                                 "Sth.C11_primary_files_short_all", "Sth.C11_visited_stable_all", "Sth.C11_primary_file_released_all"],
     runs=[dict(engine="seq", quick=200, thorough=10000, extra=["-profile", "c11"], nontrivial=["c11-dead-primary-files", "c11-unreferenced-index-files"]),
-          dict(engine="crash", quick=48, thorough=600, extra=["-profile", "c11d"], nontrivial=["c11-drain-after-recovery"])],
+          dict(engine="crash", quick=48, thorough=600, extra=["-profile", "c11d"], nontrivial=["c11-drain-after-recovery"]),
+          # collector cycles inside a Flush (the hand-over must stay behind the records it names): only the [C11] reading of the accounting
+          dict(engine="sched", quick=80, thorough=4000, extra=["-profile", "c13"], nontrivial=["handover-accounting", "flush-window"])],
     crash_lines=True,
-    own_oracle_only_engines=["crash"],
+    own_oracle_only_engines=["crash", "sched"],
     rule="fixed-shape histories: fill several small files, remove or overwrite all (or all but 1-2) keys, flush, roll the files out of "
          "current position, then 7 rounds of (primary GC, flush, index GC); from the REAL store's views at the mark the driver computes "
          "which non-current primary files hold no live location and which non-current index files no bucket points into, and checks they "
@@ -392,6 +394,7 @@ PROPS["C16"] = dict(
 PROPS["C03"]["facts"] = dict(modules=["Sth.Obligations.FactsC03"], theorems=["Sth.Obligations.C03_commit_order", "Sth.Obligations.C03_close_order"])
 PROPS["C05"]["facts"] = dict(modules=["Sth.Obligations.FactsC05", "Sth.Obligations.FactsC05b"], theorems=["Sth.Obligations.C05_mutators_atomic", "Sth.Obligations.C05_data_path_guarded"])
 PROPS["C13"]["facts"] = dict(modules=["Sth.Obligations.FactsC05"], theorems=["Sth.Obligations.C05_mutators_atomic"])
+PROPS["C06"]["facts"] = dict(modules=["Sth.Obligations.FactsC05", "Sth.Obligations.FactsC05b"], theorems=["Sth.Obligations.C05_mutators_atomic", "Sth.Obligations.C05_data_path_guarded"])
 PROPS["C12"]["facts"] = dict(modules=["Sth.Obligations.FactsC12"], theorems=["Sth.Obligations.C12_flush_paths", "Sth.Obligations.C12_register_atomic"])
 PROPS["C14"]["facts"] = dict(modules=["Sth.Obligations.FactsC14"], theorems=["Sth.Obligations.C14_methods_atomic", "Sth.Obligations.C14_methods_single_section"])
 PROPS["C17"]["facts"] = dict(modules=["Sth.Obligations.FactsC17"], theorems=["Sth.Obligations.C17_done_channels", "Sth.Obligations.C17_handshake_locals_not_shadowed"])
